@@ -36,6 +36,8 @@ def run(cfg, R):
     ncomp = cfg.get("ncomp", 1)
     full = cfg.get("full", False)
     data, loss, params, sizes = build(kind, 0, 1, d, ncomp=ncomp, time_first=cfg.get("time_first", False))
+    # a pre-state after J0 steps in which some store cannot hold another full set: the step must leave everything untouched
+    full = full or any(n0 + (J0 + 1) * sel > ntot for ntot, n0, sel in sizes.values())
     data, t_, f_ = init_rar(data)
     stubs_ = __import__("vf.stubs", fromlist=["stubbed"])
     # reach the pre-state counters/probabilities by J0 real steps (concrete), then make the store contents symbolic
